@@ -88,6 +88,10 @@ pub struct Profile {
     /// chance (out of 16) that a risky expression statement is wrapped in try/catch
     pub guard: usize,
     pub lambdas: bool,
+    /// wrap operands in calls of the tracing function t(k, v) (prints k, returns v)
+    pub tracer: bool,
+    /// self-recursive functions with a depth parameter
+    pub recursion: bool,
     pub triggers: Triggers,
     pub redundant_parens: bool,
 }
@@ -119,6 +123,8 @@ impl Profile {
             illtyped: 2,
             guard: 12,
             lambdas: true,
+            tracer: true,
+            recursion: true,
             triggers: Triggers::default(),
             redundant_parens: true,
         }
@@ -177,6 +183,12 @@ pub struct Gen<'a> {
     pub labels: Vec<&'static str>,
     /// number of distinct literal ranges used (kept <= 6 so range identity is never observable)
     ranges: Vec<(i64, i64)>,
+    trace_id: usize,
+    /// a pending self-recursive call to place: (function, depth parameter, arity)
+    rec_target: Option<(String, String, usize)>,
+    /// false while generating the right side of a compound assignment (calls are fine there, but
+    /// keep it simple) 
+    tracer_ok: bool,
 }
 
 const STRS: &[&str] = &["", "a", "ab", "abc", "é", "x€y", "😀", "hello world", "A1", "  ", "0", "12", "a,b,c"];
@@ -207,6 +219,9 @@ impl<'a> Gen<'a> {
             depth: 0,
             labels: Vec::new(),
             ranges: Vec::new(),
+            trace_id: 0,
+            rec_target: None,
+            tracer_ok: true,
         }
     }
 
@@ -361,6 +376,14 @@ impl<'a> Gen<'a> {
     }
 
     fn maybe_paren(&mut self, e: Expr) -> Expr {
+        // evaluation order and count become visible through the tracing function
+        let e = if self.prof.tracer && self.tracer_ok && self.rd.chance(1, 12) {
+            self.label("traced_operand");
+            self.trace_id += 1;
+            Expr::callv("t", vec![Expr::Num(self.trace_id as f64), e])
+        } else {
+            e
+        };
         if self.prof.redundant_parens && self.rd.chance(1, 10) {
             Expr::paren(e)
         } else {
@@ -437,6 +460,20 @@ impl<'a> Gen<'a> {
         }
         let d = depth - 1;
         let e = match want {
+            Kind::Num if self.rd.chance(1, 14) => {
+                // a built-in method that fails (raised by the native itself, not by an operator)
+                self.label("native_failure");
+                match self.rd.below(8) {
+                    0 => Expr::invoke(Expr::VecLit(vec![]), "pop", vec![]),
+                    1 => Expr::invoke(Expr::str("x3"), "to_num", vec![]),
+                    2 => Expr::invoke(Expr::str("abc"), "find", vec![Expr::str(""), Expr::Num(0.0)]),
+                    3 => Expr::invoke(Expr::str("abc"), "char_byte_index", vec![Expr::Num(9.0)]),
+                    4 => Expr::invoke(Expr::MapLit(vec![], ln()), "get", vec![Expr::VecLit(vec![])]),
+                    5 => Expr::invoke(Expr::var("String"), "from_utf8", vec![Expr::VecLit(vec![Expr::Num(255.0)])]),
+                    6 => Expr::invoke(Expr::str("abc"), "len", vec![Expr::Num(1.0)]),
+                    _ => Expr::invoke(Expr::var("Fiber"), "new", vec![Expr::Num(1.0)]),
+                }
+            }
             Kind::Num => match self.rd.below(12) {
                 0..=3 => {
                     let op = *self.rd.pick(&BinOp::ARITH);
@@ -480,6 +517,24 @@ impl<'a> Gen<'a> {
                 }
                 _ => self.expr(Kind::Num, 0),
             },
+            Kind::Str if self.rd.chance(1, 10) && !self.vars_of(Kind::Vec).is_empty() => {
+                // parts that mutate what an earlier part printed: formatting happens part by part
+                self.label("interp_side_effect");
+                let vs = self.vars_of(Kind::Vec);
+                let v = vs[self.rd.below(vs.len())].name.clone();
+                let effect = match self.rd.below(3) {
+                    0 => Expr::invoke(Expr::var(&v), "push", vec![Expr::Num(9.0)]),
+                    1 => Expr::invoke(Expr::var(&v), "pop", vec![]),
+                    _ => Expr::assign(Target::Index(Expr::var(&v), Expr::Num(0.0)), Expr::str("w")),
+                };
+                Expr::Interp(vec![
+                    Part::Ex(Expr::var(&v)),
+                    Part::Lit("|".into()),
+                    Part::Ex(effect),
+                    Part::Lit("|".into()),
+                    Part::Ex(Expr::var(&v)),
+                ])
+            }
             Kind::Str => match self.rd.below(9) {
                 0 | 1 => {
                     let a = self.expr(Kind::Str, d);
@@ -659,6 +714,16 @@ impl<'a> Gen<'a> {
             return self.expr(want, 0);
         }
         let (name, arity) = cs[self.rd.below(cs.len())].clone();
+        if arity >= 100 {
+            // a self-recursive function: a small literal depth first
+            let arity = arity - 100;
+            let mut args = vec![Expr::Num(self.rd.below(4) as f64)];
+            for _ in 1..arity {
+                args.push(self.expr(Kind::Num, d));
+            }
+            self.label("call_recursive");
+            return Expr::callv(&name, args);
+        }
         let arity = if self.rd.below(16) < self.prof.illtyped / 2 + 1 && self.rd.chance(1, 4) {
             self.label("wrong_arity");
             (arity + 1) % 3
@@ -864,6 +929,19 @@ impl<'a> Gen<'a> {
         if !self.rd.spend(2) {
             return;
         }
+        if let Some((name, dp, arity)) = self.rec_target.clone() {
+            // only directly inside the function being defined (not in nested lambdas), not in finally
+            if self.fns.last().map(|f| f.kind == FnKind::Function).unwrap_or(false)
+                && !self.in_finally()
+                && self.visible().iter().any(|v| v.name == dp)
+                && self.rd.chance(1, 3)
+            {
+                self.rec_target = None;
+                let call = self.rec_call(&name, &dp, arity);
+                out.push(call);
+                return;
+            }
+        }
         let p = self.prof.clone();
         let deep = self.depth >= p.max_depth;
         let in_fin = self.in_finally();
@@ -944,6 +1022,7 @@ impl<'a> Gen<'a> {
             13 => self.break_stmt(out),
             14 => self.return_stmt(out),
             16 => self.closure_template(out),
+            _ if self.rd.chance(1, 2) => crate::gen2::iter_template(self, out),
             _ => {
                 let d = p.expr_depth;
                 let collect = self.rd.flag();
@@ -1245,8 +1324,9 @@ impl<'a> Gen<'a> {
             has_super,
         });
         self.scopes.push(Vec::new());
-        for p in params {
-            self.declare(p, Kind::Num, true);
+        for (i, p) in params.iter().enumerate() {
+            let is_depth = i == 0 && self.rec_target.as_ref().map(|r| &r.1 == p).unwrap_or(false);
+            self.declare(p, Kind::Num, !is_depth);
         }
         self.depth += 1;
         let n = 1 + self.rd.below(max);
@@ -1273,14 +1353,44 @@ impl<'a> Gen<'a> {
             let f = self.fns.last().unwrap();
             (f.in_class, f.has_super)
         };
-        let body = self.fn_body(FnKind::Function, &params, in_class, has_super, 4);
+        // a self-recursive function carries a depth parameter (first parameter) and calls itself with
+        // depth - 1 from a generated position (possibly inside a try block or a loop)
+        let recursive = self.prof.recursion && arity >= 1 && self.rd.chance(1, 3);
+        if recursive {
+            self.label("recursive_fn");
+            self.rec_target = Some((name.clone(), params[0].clone(), arity));
+        }
+        let mut body = self.fn_body(FnKind::Function, &params, in_class, has_super, 4);
+        if recursive {
+            let used = self.rec_target.is_none();
+            self.rec_target = None;
+            if !used {
+                // the generator did not place the call: put it first
+                let call = self.rec_call(&name, &params[0], arity);
+                body.insert(0, call);
+            }
+        }
         out.push(Stmt::new(StmtKind::Fn(Rc::new(FnDef {
             name: RefCell::new(name.clone()),
             params,
             body: Body::Block(body),
             kind: FnKind::Function,
         }))));
-        self.declare(&name, Kind::Fn(arity), false);
+        self.declare(&name, if recursive { Kind::Fn(100 + arity) } else { Kind::Fn(arity) }, false);
+    }
+
+    fn rec_call(&mut self, name: &str, depth_param: &str, arity: usize) -> Stmt {
+        let mut args = vec![Expr::bin(BinOp::Sub, Expr::var(depth_param), Expr::Num(1.0))];
+        for _ in 1..arity {
+            args.push(Expr::Num(self.rd.below(5) as f64));
+        }
+        let call = Expr::callv(name, args);
+        let inner = if self.rd.flag() { Stmt::print(call) } else { Stmt::expr(call) };
+        Stmt::new(StmtKind::If(
+            Expr::bin(BinOp::Gt, Expr::var(depth_param), Expr::Num(0.0)),
+            vec![inner],
+            None,
+        ))
     }
 
     /// Closure idioms: several closures over one variable, capture through several levels, capture
@@ -1645,6 +1755,17 @@ impl<'a> Gen<'a> {
         self.classes.clear();
         self.ranges.clear();
     }
+    pub fn note_range(&mut self, a: i64, b: i64) {
+        if !self.ranges.contains(&(a, b)) {
+            self.ranges.push((a, b));
+        }
+    }
+    pub fn literal_range_pub(&mut self) -> Expr {
+        self.literal_range()
+    }
+    pub fn expr_pub(&mut self, k: Kind, d: usize) -> Expr {
+        self.expr(k, d)
+    }
     pub fn loop_enter(&mut self) {
         self.fcx().loop_depth += 1;
     }
@@ -1664,7 +1785,21 @@ pub enum TryPosPub {
 pub fn program(data: &[u8], prof: Profile) -> (Program, Vec<&'static str>) {
     let mut g = Gen::new(data, prof);
     let n = 3 + g.rd.below(12);
-    let main = g.stmts(n);
+    let mut main = g.stmts(n);
+    if g.trace_id > 0 {
+        main.insert(
+            0,
+            Stmt::new(StmtKind::Fn(Rc::new(FnDef {
+                name: RefCell::new("t".to_string()),
+                params: vec!["k".to_string(), "v".to_string()],
+                body: Body::Block(vec![
+                    Stmt::print(Expr::var("k")),
+                    Stmt::new(StmtKind::Return(Some(Expr::var("v")))),
+                ]),
+                kind: FnKind::Function,
+            }))),
+        );
+    }
     let labels = std::mem::take(&mut g.labels);
     (
         Program {
